@@ -1,30 +1,53 @@
 ---- MODULE XStreamConn ----
 (* The client side of one multiplexed xprotocol connection (pkg/stream/xprotocol/conn.go streamConn:
-   clientStreamIDBase, clientStreams, NewStream, handleResponse, Reset; stream.go xStream.ResetStream;
-   pkg/stream/client.go receiver wrapper; <proto>/protocol.go GenerateRequestID), property C02.
+   clientStreamIDBase, clientStreams, NewStream, handleResponse, Reset; stream.go xStream.ResetStream, endStream;
+   pkg/stream/client.go receiver wrapper; <proto>/protocol.go GenerateRequestID, <proto>/command.go
+   SetRequestId/GetRequestId and the id field of the frame), property C02.
    Waiters open streams, responses arrive for ANY id (waiting, already answered, reset, never allocated),
    streams are reset locally, the connection is reset. A waiter must see the response of its own
-   current request, at most once, and nothing after a reset; the table must hold exactly the waiting ids. *)
+   current request, at most once, and nothing after a reset; the table must hold exactly the waiting ids.
+
+   Ids. The connection counts streams in a 64-bit counter; the id a stream is known by in the table (its KEY) is made
+   from the counter by the protocol, the request frame carries the key in a field of the protocol's WIRE TYPE, the peer
+   echoes that field, and the response's field is turned into a key again for the lookup:
+        bolt, boltv2   uint32     key = counter mod 2^32
+        tars           int32      key = the signed value of (counter mod 2^32)  (the sign bit flips at 2^31, -1 is followed by 0)
+        dubbo          uint64     key = counter (which wraps by itself at 2^64)
+   The width is a constant of the model: Mod = number of values of the wire type (a small power of two, the model wraps
+   at Mod where the code wraps at 2^32 / 2^64), Signed = the type is signed (values -Mod/2 .. Mod/2-1). Correlation needs
+   FromWire(WireOf(key)) = key for every key the counter produces: the two id defects break exactly that. *)
 EXTENDS Integers, Sequences, FiniteSets, TLC, Json
 
 CONSTANTS Waiters,   \* e.g. 1..3
           Start,     \* value of the id counter before the first allocation
-          Mod,       \* ids are (counter mod Mod). TLC integers are 32 bit: the model wraps at 2^16, the driver seeds the real
-                     \* counter at 2^32-2 and reports real ids mod 2^16 (plus the bits above 2^32, which must be 0)
+          Mod,       \* number of values of the id's wire type. The drivers seed the real counter just below a multiple of Mod that
+                     \* is a boundary of the real type (2^31, 2^32, 2^63, 2^64) and report real ids by their residue mod Mod
+          Signed,    \* the wire type is signed
           MaxOps,
-          Defects    \* {} | "NoDelete" | "ResetKeepsEntry" | "ArrivalOrder"
+          Defects    \* {} | "NoDelete" | "ResetKeepsEntry" | "ArrivalOrder" | "KeyWiderThanWire" | "SignLost"
 
-IdOf(k) == (Start + k) % Mod
+ASSUME Mod > MaxOps + 3      \* no id comes round again while an earlier holder can still wait: 2^32 streams are not a history of the model
+
+NoId == Mod                                                    \* "no stream yet": outside both value ranges
+Val(u) == IF Signed /\ u >= Mod \div 2 THEN u - Mod ELSE u     \* residue 0..Mod-1 -> value of the wire type
+Counter(k) == Start + k                                        \* the counter after k allocations
+(* GenerateRequestID. KeyWiderThanWire: the key is the raw counter although the frame field is narrower (mosn issue 2403) *)
+KeyOf(k) == IF "KeyWiderThanWire" \in Defects THEN Counter(k) ELSE Val(Counter(k) % Mod)
+(* SetRequestId + Encode: the field of the frame has the wire type, whatever the key was *)
+WireOf(key) == Val(key % Mod)
+(* Decode + GetRequestId of the response. SignLost: a signed field is widened without its sign *)
+FromWire(x) == IF "SignLost" \in Defects THEN x % Mod ELSE x
+IdOf(k) == KeyOf(k)
 
 VARIABLES n,       \* streams allocated so far
-          table,   \* id -> waiter  (clientStreams)
-          cur,     \* waiter -> [id, st]  st: "idle" | "waiting" | "answered" | "reset"
+          table,   \* key -> waiter  (clientStreams)
+          cur,     \* waiter -> [id, wire, st]  id: key of its latest stream, wire: id its request carried, st: "idle" | "waiting" | "answered" | "reset"
           bad,     \* faults seen by waiters
           dead,    \* connection reset happened
           hist
 vars == <<n, table, cur, bad, dead, hist>>
 
-Init == /\ n = 0 /\ table = <<>> /\ cur = [w \in Waiters |-> [id |-> -1, st |-> "idle"]]
+Init == /\ n = 0 /\ table = <<>> /\ cur = [w \in Waiters |-> [id |-> NoId, wire |-> NoId, st |-> "idle"]]
         /\ bad = {} /\ dead = FALSE /\ hist = <<>>
 
 Without(f, k) == [x \in DOMAIN f \ {k} |-> f[x]]
@@ -35,30 +58,32 @@ Judge(w, i) == (IF cur[w].id # i THEN {"foreign-response"} ELSE {}) \cup
                (IF cur[w].st = "answered" THEN {"delivered-twice"} ELSE {}) \cup
                (IF cur[w].st = "reset" THEN {"delivered-after-reset"} ELSE {})
 
-NewWith(w, i) == /\ ~dead /\ cur[w].st # "waiting"
-                 /\ n' = n + 1
-                 /\ table' = With(table, i, w)
-                 /\ cur' = [cur EXCEPT ![w] = [id |-> i, st |-> "waiting"]]
-                 /\ hist' = Append(hist, [op |-> "new", w |-> w])
-                 /\ UNCHANGED <<bad, dead>>
-New(w) == NewWith(w, IdOf(n + 1))     \* the design: ids come from the per-connection counter
+NewWith(w, i, wi) == /\ ~dead /\ cur[w].st # "waiting"
+                     /\ n' = n + 1
+                     /\ table' = With(table, i, w)
+                     /\ cur' = [cur EXCEPT ![w] = [id |-> i, wire |-> wi, st |-> "waiting"]]
+                     /\ hist' = Append(hist, [op |-> "new", w |-> w])
+                     /\ UNCHANGED <<bad, dead>>
+New(w) == NewWith(w, KeyOf(n + 1), WireOf(KeyOf(n + 1)))     \* the design: ids come from the per-connection counter
 
-(* a response frame carrying id i *)
-Handle(i) == IF i \notin DOMAIN table THEN UNCHANGED <<table, cur, bad>>
-             ELSE LET w == IF "ArrivalOrder" \in Defects
-                           THEN table[CHOOSE x \in DOMAIN table : \A y \in DOMAIN table : table[x] <= table[y]]
-                           ELSE table[i]
-                  IN /\ table' = IF "NoDelete" \in Defects THEN table ELSE Without(table, i)
-                     /\ bad' = bad \cup Judge(w, i)
-                     /\ cur' = [cur EXCEPT ![w].st = "answered"]
+(* a response frame whose id field, read back, is key i; `lost`: what its owner concludes when nobody is found *)
+Handle(i, lost) == IF i \notin DOMAIN table THEN /\ UNCHANGED <<table, cur>> /\ bad' = bad \cup lost
+                   ELSE LET w == IF "ArrivalOrder" \in Defects
+                                 THEN table[CHOOSE x \in DOMAIN table : \A y \in DOMAIN table : table[x] <= table[y]]
+                                 ELSE table[i]
+                        IN /\ table' = IF "NoDelete" \in Defects THEN table ELSE Without(table, i)
+                           /\ bad' = bad \cup Judge(w, i)
+                           /\ cur' = [cur EXCEPT ![w].st = "answered"]
 
+(* the peer answers w's latest request: it echoes the id field of the request frame *)
 Resp(w) == /\ ~dead /\ cur[w].st # "idle"
-           /\ Handle(cur[w].id)
+           /\ Handle(FromWire(cur[w].wire), IF cur[w].st = "waiting" THEN {"response-lost"} ELSE {})
            /\ hist' = Append(hist, [op |-> "resp", w |-> w])
            /\ UNCHANGED <<n, dead>>
 
+(* a response with an id field nobody was given yet (three ahead of the counter, in the wire type) *)
 Ghost == /\ ~dead /\ n > 0
-         /\ Handle(IdOf(n + 3))
+         /\ Handle(FromWire(Val(Counter(n + 3) % Mod)), {})
          /\ hist' = Append(hist, [op |-> "ghost"])
          /\ UNCHANGED <<n, dead>>
 
@@ -84,6 +109,8 @@ Spec == Init /\ [][Next]_vars
 OwnResponseOnce == bad = {}
 TableIsWaiting == ~dead => DOMAIN table = { cur[w].id : w \in { x \in Waiters : cur[x].st = "waiting" } }
 NoAliasing == \A w1, w2 \in Waiters : (w1 # w2 /\ cur[w1].st = "waiting" /\ cur[w2].st = "waiting") => cur[w1].id # cur[w2].id
+(* every key survives the trip through the frame field and back *)
+IdRoundTrip == \A w \in Waiters : cur[w].st # "idle" => FromWire(cur[w].wire) = cur[w].id
 
 EmitCase == (Len(hist) = MaxOps \/ dead) => PrintT(<<"CASE", ToJson([ops |-> hist])>>)
 ====
